@@ -452,7 +452,7 @@ func c21Decode(pe *syntax.ParamExp, src string, st *c21State) (*c21PE, string) {
 		if d.orig, err = expand.Pattern(cfg0, pe.Repl.Orig); err != nil {
 			return nil, "arg-error"
 		}
-		if d.with, err = expand.Literal(cfg0, pe.Repl.With); err != nil {
+		if d.with, err = expand.VerifC22LiteralKeepEscapes(cfg0, pe.Repl.With); err != nil { // as replaceElems does
 			return nil, "arg-error"
 		}
 		if pe.Repl.Orig != nil && len(pe.Repl.Orig.Parts) > 0 {
@@ -505,7 +505,7 @@ func c21Decode(pe *syntax.ParamExp, src string, st *c21State) (*c21PE, string) {
 			syntax.UpperFirst, syntax.UpperAll, syntax.LowerFirst, syntax.LowerAll:
 			d.arg, err = expand.Pattern(cfg0, pe.Exp.Word) // Config.expArg
 		default:
-			d.arg, err = expand.Literal(cfg0, pe.Exp.Word)
+			d.arg, err = expand.VerifC22LiteralKeepEscapes(cfg0, pe.Exp.Word)
 		}
 		if err != nil {
 			return nil, "arg-error"
@@ -532,6 +532,14 @@ func c21ErrKind(err error) string {
 		return "err negindex"
 	case "unsupported":
 		return "err unsupported"
+	case "unsupported associative array subscript":
+		return "err assocsubscript"
+	}
+	if _, ok := err.(syntax.QuoteError); ok {
+		return "err quote"
+	}
+	if _, ok := err.(*syntax.QuoteError); ok {
+		return "err quote"
 	}
 	if n, ok := strings.CutSuffix(err.Error(), ": substring expression < 0"); ok {
 		return "err substr " + n
@@ -1851,7 +1859,7 @@ func c21Excluded(cs c21Case, d *c21PE) string {
 		return "C21-anchored-replace"
 	}
 	if d.kind == 'R' && d.withBackslash {
-		return "c22-literal-backslash" // expand.Literal keeps the backslashes of unquoted literals (C22-assign-backslash)
+		return "C21-operator-word-backslash" // operator words are expanded with literalKeepEscapes and keep their backslashes
 	}
 	if d.kind == 'R' && d.withAmp {
 		return "C21-patsub-ampersand"
